@@ -5,6 +5,9 @@ sys.path.insert(0, "/verif/lib")
 import overlay
 ovl = overlay.build_overlay()
 env = dict(os.environ, GOFLAGS="-mod=readonly", GOPROXY="off")
-rc = subprocess.call(["go", "run", "-overlay", ovl, "./zz_verif_tools/go2lean", "-config", "/verif/tools/go2lean.json",
+overlay.mklake()
+cfg = "/verif/build/go2lean.all.json"
+json.dump(overlay.go2lean_config(), open(cfg, "w"))
+rc = subprocess.call(["go", "run", "-overlay", ovl, "./zz_verif_tools/go2lean", "-config", cfg,
                       "-out", "/verif/lean/AlgoVerif/Gen", "-overlay", ovl], cwd="/repo", env=env)
 sys.exit(rc)
